@@ -1,4 +1,5 @@
 import Nsl.Proofs.Opt
+import Nsl.Proofs.OptSimConv
 /-!
 # C02 – optimisation never changes observable behaviour
 
@@ -16,9 +17,11 @@ the soundness argument consists of, each for ALL programs / states:
 * `C02_fold_sound`       – the folded constant is the value the VM's CAST computes, for every constant and target type;
 * `C02_forward_sound`    – in every state, a store followed by the load leaves exactly the stored operand's value in the
                            load's register and changes nothing else.
-`C02_partial`: what is NOT yet machine-checked is the global simulation that glues these local facts along whole
-executions (loops, calls); the behavioural correspondence (optimised vs unoptimised real modules on all inputs) and the
-structural correspondence (model optimiser on the real unoptimised IR = real optimised IR) carry that part.
+The global statement is proved in the second half of this file (`C02_opt_correct`, `C02_opt_correct_fail`,
+`C02_opt_complete`, `C02_opt_complete_fail`) under the decidable side conditions `optOK`, which the harness evaluates on
+every real IR.  `C02_Statement` below — the first formulation, with `forwardOK` as its only hypothesis — is FALSE
+(`C02_Statement_false`): the substitution is per function, so references must be defined once (`defsDistinct`) and used
+in the block that defines them (`blockLocal`).
 -/
 namespace Nsl
 open VM Opt
@@ -118,5 +121,198 @@ example : optCode code = [
 
 example : forwardOK none (pass ccDecide code) = true := by rfl
 end C02Ex
+
+end Nsl
+
+/-!
+# C02 – the global simulation theorem for the IR optimiser model
+
+Under the decidable side conditions `optOK` (checked by the harness on every real IR), every run of the unoptimised
+program that does not run out of fuel is reproduced by the optimised program with the SAME fuel: same returned value,
+same final globals, same final argument list (`C02_opt_correct`), and same defined failure (`C02_opt_correct_fail`).
+Conversely every outcome of the optimised program other than `timeout` is the outcome of the original program for some
+larger fuel (`C02_opt_complete`, `C02_opt_complete_fail`).  `optOK f` is
+`blockLocal [] f.code && forwardOK none (pass ccDecide f.code) && defsDistinct f.code`; the last conjunct is necessary
+(see `C02GlobalEx.bad`).  Proofs: `Nsl/Proofs/OptSim*.lean`; overview in `C02_NOTES.md`.
+-/
+namespace Nsl
+open VM Opt
+
+theorem C02_opt_correct (P : Program) (hok : ∀ f ∈ P.funcs, optOK f = true)
+    (fuel : Nat) (name : String) (args : List Val) (g : Globals) (v : Val) (g' : Globals) (as : List Val)
+    (h : VM.invoke P fuel name args g = .done v g' as) :
+    VM.invoke (optProgram P) fuel name args g = .done v g' as := by
+  rw [← h]
+  exact optProgram_invoke_sim P hok fuel name args g (by rw [h]; intro e; cases e)
+
+#print axioms C02_opt_correct
+
+/-- `C02_Statement` (of `Props/C02.lean`) with its hypothesis strengthened to `optOK`. -/
+def C02_Statement_optOK : Prop :=
+  ∀ (P : Program), (∀ f ∈ P.funcs, optOK f = true) →
+  ∀ (fuel : Nat) (name : String) (args : List Val) (g : Globals) (v : Val) (g' : Globals) (as : List Val),
+    VM.invoke P fuel name args g = .done v g' as →
+    ∃ fuel', VM.invoke (optProgram P) fuel' name args g = .done v g' as
+
+theorem C02_statement_optOK : C02_Statement_optOK :=
+  fun P hok fuel name args g v g' as h => ⟨fuel, C02_opt_correct P hok fuel name args g v g' as h⟩
+
+#print axioms C02_statement_optOK
+
+/-- `optOK` contains the hypothesis of `C02_Statement`. -/
+theorem optOK_forwardOK (f : Func) (h : optOK f = true) : forwardOK none (pass ccDecide f.code) = true := by
+  simp only [optOK, Bool.and_eq_true] at h
+  exact h.1.2
+
+#print axioms optOK_forwardOK
+
+theorem C02_opt_correct_fail (P : Program) (hok : ∀ f ∈ P.funcs, optOK f = true)
+    (fuel : Nat) (name : String) (args : List Val) (g : Globals) (e : Err) (hne : e ≠ .timeout)
+    (h : VM.invoke P fuel name args g = .fail e) :
+    VM.invoke (optProgram P) fuel name args g = .fail e := by
+  rw [← h]
+  exact optProgram_invoke_sim P hok fuel name args g (by rw [h]; intro e'; cases e'; exact hne rfl)
+
+#print axioms C02_opt_correct_fail
+
+/-- Converse direction: a finished run of the OPTIMISED program is a finished run of the original program, with the
+same result, for some larger fuel (the original executes the removed instructions in addition). -/
+theorem C02_opt_complete (P : Program) (hok : ∀ f ∈ P.funcs, optOK f = true)
+    (fuel : Nat) (name : String) (args : List Val) (g : Globals) (v : Val) (g' : Globals) (as : List Val)
+    (h : VM.invoke (optProgram P) fuel name args g = .done v g' as) :
+    ∃ fuel', fuel ≤ fuel' ∧ VM.invoke P fuel' name args g = .done v g' as := by
+  obtain ⟨F, hle, hF⟩ := optProgram_invoke_conv P hok fuel name args g (by rw [h]; intro e; cases e)
+  exact ⟨F, hle, by rw [hF, h]⟩
+
+#print axioms C02_opt_complete
+
+/-- … and likewise for defined failures: the optimiser never introduces (or hides) a failure. -/
+theorem C02_opt_complete_fail (P : Program) (hok : ∀ f ∈ P.funcs, optOK f = true)
+    (fuel : Nat) (name : String) (args : List Val) (g : Globals) (e : Err) (hne : e ≠ .timeout)
+    (h : VM.invoke (optProgram P) fuel name args g = .fail e) :
+    ∃ fuel', fuel ≤ fuel' ∧ VM.invoke P fuel' name args g = .fail e := by
+  obtain ⟨F, hle, hF⟩ := optProgram_invoke_conv P hok fuel name args g
+    (by rw [h]; intro e'; cases e'; exact hne rfl)
+  exact ⟨F, hle, by rw [hF, h]⟩
+
+#print axioms C02_opt_complete_fail
+
+/-! ## Non-vacuity: a loop, a folded cast inside the loop, a forwarded load, a call -/
+namespace C02GlobalEx
+def i32 : ITy := .sc .int
+
+/-- `dec(a) = a - int(1)` -/
+def dec : Func := { name := "dec", params := [("a", i32)], ret := i32, code := [
+  .label 0,
+  .load 1 i32 .arg (.index 0),
+  .cast 2 i32 (.cInt 1),
+  .bin 3 (.s .sub) i32 (.ref 1) (.ref 2),
+  .ret (some (.ref 3))] }
+
+/-- `x = n; while (x) { x = dec(x); last = x; } return float(2)` -/
+def main : Func := { name := "main", params := [("n", i32)], ret := .sc .float, code := [
+  .label 0,
+  .newVar 1 i32 "x",
+  .load 2 i32 .arg (.index 0),
+  .store .local (.name "x") (.ref 2),
+  .br 10,
+  .label 10,
+  .load 3 i32 .local (.name "x"),
+  .brc (.ref 3) 11 12,
+  .label 11,
+  .load 4 i32 .local (.name "x"),
+  .call 5 i32 "dec" [.ref 4],
+  .store .local (.name "x") (.ref 5),
+  .load 6 i32 .local (.name "x"),
+  .store .global (.name "last") (.ref 6),
+  .br 10,
+  .label 12,
+  .cast 7 (.sc .float) (.cInt 2),
+  .ret (some (.ref 7))] }
+
+def P : Program := { funcs := [main, dec], globals := [("last", i32)] }
+
+example : (optFn main).code = [
+  .label 0,
+  .newVar 1 i32 "x",
+  .load 2 i32 .arg (.index 0),
+  .store .local (.name "x") (.ref 2),
+  .br 10,
+  .label 10,
+  .load 3 i32 .local (.name "x"),
+  .brc (.ref 3) 11 12,
+  .label 11,
+  .load 4 i32 .local (.name "x"),
+  .call 5 i32 "dec" [.ref 4],
+  .store .local (.name "x") (.ref 5),
+  .store .global (.name "last") (.ref 5),
+  .br 10,
+  .label 12,
+  .ret (some (.cFlt (Float.ofInt 2)))] := by rfl
+
+theorem ok : ∀ f ∈ P.funcs, optOK f = true := by
+  intro f hf
+  simp only [P, List.mem_cons, List.not_mem_nil, or_false] at hf
+  rcases hf with rfl | rfl <;> rfl
+
+theorem orig_run : VM.invoke P 30 "main" [.int 1] [("last", .int 7)] =
+    .done (.flt (Float.ofInt 2)) [("last", .int 0)] [.int 1] := by rfl
+
+/-- the theorem applies: the optimised program returns the same value, globals and arguments with the same fuel -/
+example : VM.invoke (optProgram P) 30 "main" [.int 1] [("last", .int 7)] =
+    .done (.flt (Float.ofInt 2)) [("last", .int 0)] [.int 1] :=
+  C02_opt_correct P ok 30 "main" [.int 1] [("last", .int 7)] _ _ _ orig_run
+
+/-- a defined failure (index error on a missing argument) is reproduced as well -/
+theorem orig_fail : VM.invoke P 30 "main" [] [] = .fail (.internal "IndexError-arg") := by rfl
+
+example : VM.invoke (optProgram P) 30 "main" [] [] = .fail (.internal "IndexError-arg") :=
+  C02_opt_correct_fail P ok 30 "main" [] [] _ (by intro h; cases h) orig_fail
+
+/-- the converse applies as well -/
+example : ∃ fuel', 25 ≤ fuel' ∧ VM.invoke P fuel' "main" [.int 1] [("last", .int 7)] =
+    .done (.flt (Float.ofInt 2)) [("last", .int 0)] [.int 1] :=
+  C02_opt_complete P ok 25 "main" [.int 1] [("last", .int 7)] _ _ _ (by rfl)
+
+/-! ### The added side condition `defsDistinct` is necessary
+
+`bad` satisfies `blockLocal` and `forwardOK`, but reference 5 is defined in two blocks: once by a cast that is folded
+and once by a load that is kept.  The substitution is global, so the use of the load's value is rewired to the folded
+constant and the optimised function returns 7 instead of its argument. -/
+def bad : Func := { name := "bad", params := [("a", i32)], ret := i32, code := [
+  .label 0,
+  .load 1 i32 .arg (.index 0),
+  .brc (.ref 1) 1 2,
+  .label 1,
+  .cast 5 i32 (.cInt 7),
+  .ret (some (.ref 5)),
+  .label 2,
+  .load 5 i32 .arg (.index 0),
+  .ret (some (.ref 5))] }
+
+def Pbad : Program := { funcs := [bad], globals := [] }
+
+example : blockLocal [] bad.code = true ∧ forwardOK none (pass ccDecide bad.code) = true ∧
+    defsDistinct bad.code = false ∧ optOK bad = false := ⟨rfl, rfl, rfl, rfl⟩
+example : VM.invoke Pbad 20 "bad" [.int 0] [] = .done (.int 0) [] [.int 0] := by rfl
+example : VM.invoke (optProgram Pbad) 20 "bad" [.int 0] [] = .done (.int 7) [] [.int 0] := by rfl
+end C02GlobalEx
+
+/-- The original `C02_Statement` (hypothesis `forwardOK` only) does not hold: `bad` is a counterexample. -/
+theorem C02_Statement_false : ¬ C02_Statement := by
+  intro h
+  obtain ⟨fuel', hf⟩ := h C02GlobalEx.Pbad
+    (by intro f hf; simp only [C02GlobalEx.Pbad, List.mem_cons, List.not_mem_nil, or_false] at hf; subst hf; rfl)
+    20 "bad" [.int 0] [] (.int 0) [] [.int 0] (by rfl)
+  have h7 : VM.invoke (optProgram C02GlobalEx.Pbad) 20 "bad" [.int 0] [] = .done (.int 7) [] [.int 0] := by rfl
+  have a := invoke_mono_ne _ "bad" [.int 0] [] fuel' (max fuel' 20) (Nat.le_max_left _ _)
+    (by rw [hf]; intro e; cases e)
+  have b := invoke_mono_ne _ "bad" [.int 0] [] 20 (max fuel' 20) (Nat.le_max_right _ _)
+    (by rw [h7]; intro e; cases e)
+  rw [hf] at a
+  rw [h7, a] at b
+  simp at b
+
+#print axioms C02_Statement_false
 
 end Nsl
